@@ -24,7 +24,8 @@ CLAIMED = {
         "text": "Proof (Lean 4): for every rule list, path environment and command the rule engine returns the last matching rule (R3), a non-matching rule is inert "
         "wherever it is inserted, a matching rule decides the simple command's verdict (deny/ask carry the message), no match gives the built-in verdict, literal patterns "
         "match exactly by whole-word prefix (exactly with |) – via a hand model of CPython's fnmatch – and env-assignment prefixes / transparent wrappers hide nothing from the rules. "
-        "Tied to config.py/analyzer.py by differential runs (fnmatch, match_command, analyze with the model computing rule lookups from the parsed config).",
+        "Tied to config.py/analyzer.py by differential runs (fnmatch, match_command, analyze with the model computing rule lookups from the parsed config)."
+        " Added in the hardening rounds: the command proper is judged on the words as spelled and on the words after bash's quote removal (removeQuotes, a four-mode scanner whose tables come from T0), the stricter verdict counts: a rule matching the words as bash reads them bounds the verdict from below (rule_on_unquoted_bounds, rule_bounds_env_prefix); rule_through_env_prefix holds when quote removal changes nothing.",
         "design_ref": "DESIGN.md §8 C07",
         "technique": "Lean 4 theorems over a hand model (R3 last-match, fnmatch literal lemmas) + T0 tables + T1 correspondence + rule-by-rule failing-input search",
     },
@@ -112,7 +113,8 @@ CLAIMED = {
         "unquoted here-document bodies, for((..)) headers). Theorems: every such step stays inside the flattened atoms (child_atoms/reach_atoms, ~70 cases); if a tree is approved every reachable command node is approved on its own "
         "(no_hidden_execution), every substitution the scanner finds in a reachable raw text is reliably delimited and approved (text_substitutions_allowed), and by induction on fuel the same holds for command strings to any depth "
         "of re-parsed text (no_hidden_execution_deep). T0 obligations: every Parable node kind is dispatched, sub-syntax or asked about. Not proved: that Parable's AST and the scanner's reading of raw text agree with bash - that half "
-        "is validated by executing every approved generated program under real bash 5.2 in a jail of logging stubs (also the failing-input search).",
+        "is validated by executing every approved generated program under real bash 5.2 in a jail of logging stubs (also the failing-input search)."
+        " Added in the hardening rounds: the subscript of an array assignment is taken up to the last ]= of the word, and the body of a substitution that contains a single quote is scanned as raw text as well (scan_rescans_quoted_body); the parser's reading of 'esac )' was repaired after the thorough tier found it (F01m) - the parser remains an oracle, tied by the jail and by C03's composition matrix.",
         "design_ref": "DESIGN.md §8 C01",
         "technique": "Lean 4 theorems (independent Reach spec vs flattened atoms, induction on fuel) + T0 kind obligations + T1 correspondence on ASTs + real-bash jail execution (T2)",
     },
@@ -130,7 +132,8 @@ CLAIMED = {
         "something never takes the generic help/version shortcut (delegate_verdict, no_help_shortcut_for_launchers); (c) pure wrappers give exactly the wrapped command's verdict (pure_wrapper_exact + skip_* lemmas incl. timeout -s/-k, nice -n); "
         "(d) Lean models of shell/env/xargs/find/fd/arch/caffeinate/script classify and docker/kubectl exec extraction: the delegated text is the re-quoting of a suffix of the command line (nothing dropped/reordered/invented), a shell's -c string is "
         "delegated verbatim, find delegates every -exec/-execdir clause (find_all_clauses vs the independent execClauses spec), kubectl exec delegates exactly the words after the first --. Not proved: that the skipped option prefix is what the real tool "
-        "treats as options - validated by running every approved wrapper form under the real env/xargs/find/timeout/nice/nohup/sh in a jail (T2). Handlers uv/tar/fzf/docker-kubectl dispatch remain oracles (monotonicity search only).",
+        "treats as options - validated by running every approved wrapper form under the real env/xargs/find/timeout/nice/nohup/sh in a jail (T2). The fzf handler and docker's dispatch remain oracles (monotonicity search only)."
+        " Added in the hardening rounds: models and theorems for uv run, tar (delegation only when extracting; abbreviated program-running options), fd (every -x/-X clause, =-joined and combined forms: fdLoop_keeps, fdLoop_fuel), script (option clusters; unknown options ask), the shells' option scan before -c (afterCFlag_position, shell_script_operand_asks), kubectl's action detection (C13.kubectl_delegates_exec_only), option clusters of timeout/nice (skip_cluster_with_arg); decoy forms and a cwd-sensitive inner command in the search.",
         "design_ref": "DESIGN.md §8 C04",
         "technique": "Lean 4 theorems (lexer round trip by induction, handler models, delegate = verdict) + T0 flag tables + T1 correspondence (bash_quote, 8 handler classify models, analyzer) + monotone-verdict search + real-tool jail (T2)",
     },
@@ -140,7 +143,8 @@ CLAIMED = {
         "but still walks redirect targets and here-documents for substitutions; (3) remote rule lookups read neither the path environment, the cwd nor the aliases (remote_rules_env_free, remote_rules_alias_free) but every rule: a matching rule decides "
         "(remote_rule_decides, remote_literal_deny); (4) a simple command whose lookups agree in both modes and whose handler reports no write targets gets the same verdict and reason (remote_eq_local_simple, induction through wrappers); (5) kubectl exec "
         "delegates exactly the words after the first --, docker exec a non-empty suffix after the container. The docker/kubectl dispatch up to `exec` is an oracle (World.classify). Search on the implementation: delegate = analyze(INNER, remote=True), "
-        "remote <= local, path-free equality, deny rules bite, outer contexts keep their verdict.",
+        "remote <= local, path-free equality, deny rules bite, outer contexts keep their verdict."
+        " Added in the hardening rounds: which kubectl command lines are an exec at all (kubectlOperands/kubectlDelegates with the source's FLAGS_WITH_ARG: kubectl_delegates_exec_only, exec_not_tabled); exec forms in the search are drawn from reference option grammars of kubectl and docker.",
         "design_ref": "DESIGN.md §8 C13",
         "technique": "Lean 4 theorems (flag constancy by mutual induction, env-free remote matching, simple-command equality) + T1 correspondence in config mode (remote lookups computed by the model) + exec-extraction models + metamorphic search",
     },
@@ -168,16 +172,18 @@ CLAIMED = {
         "as located by the modelled _skip_cte - begins with SELECT without INTO before FROM or with a read-only keyword (ro_shape); a write keyword first, an unknown first token (dot-commands included) or SELECT INTO is never read-only; a sqlite3 command line is a read-only query "
         "only if every SQL argument and -cmd argument is read-only on its own (args_separate, write_arg_asks, allowed_cases). The regular expressions are modelled by what CPython's backtracking matcher returns (greedy quote pairs with end-of-text backtracking, non-greedy block comments); "
         "str.upper is modelled for everything that can become an ASCII keyword (T0 table). T0 obligations: keyword sets disjoint, the six alternatives of the quoting pattern. NOT proved (engine semantics, exercised by T2): that such a single statement leaves an SQLite database unchanged - "
-        "every generated text classified read-only is executed by the real engine and the state diffed. Shell-only side-effect functions: finding F16b.",
+        "every generated text classified read-only is executed by the real engine and the state diffed. Shell-only side-effect functions: finding F16b."
+        " Added in the hardening rounds: -readonly/-safe/-init count only in option position (optionWords: option_value_skipped, readonly_mode_option) and -init asks whatever else is given (init_script_asks); the shell's option grammar is simulated in the search (assumption: the binary is not installed). -safe treated as read-only: finding F16d (pinned by the suite).",
         "design_ref": "DESIGN.md §8 C16",
         "technique": "Lean 4 theorems over a hand model of the scanner (regex semantics modelled) + T0 keyword/pattern obligations + T1 correspondence (strip, multi, classify, sqlite3 handler) + real SQLite engine state diff (T2)",
     },
     "C17": {
         "text": "Proof (Lean 4), command-line half, for every token list: against an independently written CPython argv grammar (pythonRuns: options end at the first non-option word; -c, -m and a lone dash end them; option values are skipped) an approved `python ...` "
         "only prints help/version, runs -m calendar, or runs a script whose file - resolved in the command's cwd - passed the file analysis (runs_analysed_file, via spec_holds relating the handler's two scans to the grammar by induction); whatever follows the script word cannot change "
-        "the verdict (program_args_inert); a program read from stdin or given inline is never approved; the only three ways to an approval (approval_needs). T0: flag tables, suffix and size gates, module tables disjoint. NOT modelled: the AST checker and CPython's run-time "
+        "the verdict (program_args_inert); a program read from stdin or given inline is never approved; the only three ways to an approval (approval_needs). T0: flag tables, suffix and size gates, module tables disjoint. NOT modelled: CPython's run-time "
         "behaviour - 'a script that passes the checker raises no dangerous audit event' is exercised by executing every approved generated script (60 access paths x wrappers x option placements) in a child interpreter whose PEP 578 audit hook records and vetoes file, process, "
-        "network, ctypes, exec/compile and unlisted-import events. Library-internal compile events (dataclasses, namedtuple): finding F17d.",
+        "network, ctypes, exec/compile and unlisted-import events. Library-internal compile events (dataclasses, namedtuple): finding F17d."
+        " Added in the hardening rounds: SafetyAnalyzer and analyze_python_file are modelled (approved_covers, safe_means, approved_command_runs_checked_script); a script word the shell would tilde-expand is never resolved (tilde_refused, tilde_script_asks). Launchers that change directory first (env -C, uv run --directory): finding F17i.",
         "design_ref": "DESIGN.md §8 C17",
         "technique": "Lean 4 theorems over a model of the handler's option scans vs a CPython argv-grammar spec + T0 tables + T1 correspondence (classify with recorded file analysis; grammar vs the real interpreter) + audit-hook execution of approved scripts (T2)",
     },
